@@ -1,7 +1,7 @@
 (* C08 -- Request/response correlation.  Statements only; proofs are in C08/C08Proofs.v
    (for an arbitrary routing table) and C08/C08Inst.v (for the table regenerated from the
    layers' source, Gen/C08Table.v). *)
-From YV Require Import Common.Tac C08.C08Model C08.C08Proofs C08.C08Ping C08.C08Inst Gen.C08Table.
+From YV Require Import Common.Tac C08.C08Model C08.C08Proofs C08.C08Ping C08.C08Sync C08.C08Inst Gen.C08Table.
 
 (* Application level, every request kind of the property's domain, the routing of the CURRENT
    source: in ANY history, the application callbacks invoked for the id a request got are
@@ -125,3 +125,152 @@ Theorem C08_delete_after_dispatch_refuted :
                     Deliver 1 TError ShPlain; Deliver 1 TResult ShPlain])) <> None.
 Proof. exact delete_after_dispatch_refuted. Qed.
 Print Assumptions C08_delete_after_dispatch_refuted.
+
+(* ====================================================================================
+   Deliveries from INSIDE a send (added after seeded regression C08-5).
+
+   A request is outstanding as soon as its stanza has reached the bottom of the stack -- while
+   the sender is still inside toLower() of its own _sendIq.  A reader thread (or a transport
+   that answers synchronously) can deliver at exactly that moment.  Histories [list sop] carry,
+   on every request, the list [sync] of stanzas the bottom hands upward before its send()
+   returns (replies to this very request, replays of them, non-reply iqs with its id, stanzas
+   for any other id).  [flatten] is the sequential reading: the request, then [sync].
+   The theorems above are the instances "every sync = []" (C08_plain_histories_embed).
+   ==================================================================================== *)
+
+(* Application level, the routing and the registration order of the CURRENT source, every
+   in-domain kind, retries from inside callbacks included, ALL histories with nested deliveries
+   (in the request itself and in every request before and after it): the callbacks invoked for
+   the request's id are exactly those of the sequential reading -- the reply that arrives while
+   the request is still being handed down fires the request's callback exactly once, with the
+   original request; replays of it (nested or later), get/set iqs with its id and anything else
+   fire nothing. *)
+Theorem C08_sync_app_exactly_once : forall pre k hs he rt sync post,
+  in_domain k = true ->
+  let i := next (sfinal gen_cfg init pre) in
+  shaped i (shape_of k) (map dl sync ++ flatten post) ->
+  app_cbs i (sevents gen_cfg init (pre ++ SApp k hs he rt sync :: post)) =
+  expected_seq i hs he (mkreq i (OApp k)) (Some rt) (map dl sync ++ flatten post).
+Proof. exact gen_sync_app_exactly_once_thm. Qed.
+Print Assumptions C08_sync_app_exactly_once.
+
+(* The same for ANY table that transports the kind faithfully, removes entries before the
+   dispatch and REGISTERS BEFORE THE HAND-DOWN at both levels. *)
+Theorem C08_sync_app_exactly_once_any_table : forall c k,
+  strict_reply c = true -> late_delete c = false -> late_delete_iface c = false ->
+  reg_first c = true -> reg_first_iface c = true -> all_routed c = true ->
+  kind_ok c k = true ->
+  forall pre hs he rt sync post,
+  let i := next (sfinal c init pre) in
+  shaped i (shape_of k) (map dl sync ++ flatten post) ->
+  app_cbs i (sevents c init (pre ++ SApp k hs he rt sync :: post)) =
+  expected_seq i hs he (mkreq i (OApp k)) (Some rt) (map dl sync ++ flatten post).
+Proof. exact sync_app_exactly_once_retry_kind_thm. Qed.
+Print Assumptions C08_sync_app_exactly_once_any_table.
+
+(* Entries are removed, nothing is left behind: after any history with nested deliveries the
+   request's id is registered (application registry and its transporting layer) iff an issue
+   of it is still unanswered ([armed_after] of the sequential reading), and is in NO registry
+   once answered -- in particular when the outer send returns after a nested reply, nothing is
+   registered for the id. *)
+Theorem C08_sync_app_registered_iff_outstanding : forall pre k hs he rt sync post,
+  in_domain k = true ->
+  let i := next (sfinal gen_cfg init pre) in
+  shaped i (shape_of k) (map dl sync ++ flatten post) ->
+  registered_iff_outstanding i
+    (armed_after i hs he (Some rt) (map dl sync ++ flatten post))
+    (sfinal gen_cfg init (pre ++ SApp k hs he rt sync :: post)).
+Proof. exact gen_sync_app_registered_iff_outstanding_thm. Qed.
+Print Assumptions C08_sync_app_registered_iff_outstanding.
+
+(* Library level (key fetch x3, key upload, group info) with nested deliveries. *)
+Theorem C08_sync_lib_exactly_once : forall pre lk sync post, lk <> LKPing ->
+  let i := next (sfinal gen_cfg init pre) in
+  let s := fst (snd (lib_route gen_cfg lk)) in
+  let e := snd (snd (lib_route gen_cfg lk)) in
+  lib_cbs i (sevents gen_cfg init (pre ++ SLib lk sync :: post)) =
+  expected s e (first_reply i (map dl sync ++ flatten post)) (mkreq i (OLib lk)).
+Proof. exact gen_sync_lib_exactly_once_thm. Qed.
+Print Assumptions C08_sync_lib_exactly_once.
+
+(* All six library requests (keep-alive ping included): registered in the issuing layer until
+   the first reply -- nested or later --, in no registry afterwards. *)
+Theorem C08_sync_lib_registered_iff_outstanding : forall pre lk sync post,
+  let i := next (sfinal gen_cfg init pre) in
+  (lk = LKPing -> shaped i ShPlain (map dl sync ++ flatten post)) ->
+  lib_registered_iff_outstanding i (fst (lib_route gen_cfg lk))
+    (first_reply i (map dl sync ++ flatten post))
+    (sfinal gen_cfg init (pre ++ SLib lk sync :: post)).
+Proof. exact gen_sync_lib_registered_iff_outstanding_thm. Qed.
+Print Assumptions C08_sync_lib_registered_iff_outstanding.
+
+(* The keep-alive ping answered from inside its own send (the pong read by the reader thread
+   while the ping thread is still sending): forwarded to the interface layer exactly once. *)
+Theorem C08_sync_libping_forwarded_once : forall pre sync post,
+  let st := sfinal gen_cfg init pre in
+  let i := next st in
+  let s := fst (snd (lib_route gen_cfg LKPing)) in
+  let e := snd (snd (lib_route gen_cfg LKPing)) in
+  shaped i ShPlain (map dl sync ++ flatten post) ->
+  iface_evs i (sevents gen_cfg st (SLib LKPing sync :: post)) =
+  expected_iface s e (first_reply i (map dl sync ++ flatten post)).
+Proof. exact gen_sync_libping_forwarded_once_thm. Qed.
+Print Assumptions C08_sync_libping_forwarded_once.
+
+(* The bridge, for any table whose two _sendIq functions register first: a history with nested
+   deliveries has the events and the final state of its sequential reading. *)
+Theorem C08_sync_is_sequential : forall c,
+  reg_first c = true -> reg_first_iface c = true -> all_routed c = true ->
+  forall h st,
+  sevents c st h = events c st (flatten h) /\ sfinal c st h = final c st (flatten h).
+Proof. exact sflat_thm. Qed.
+Print Assumptions C08_sync_is_sequential.
+
+(* Histories without nested deliveries are the special case (whatever the table). *)
+Theorem C08_plain_histories_embed : forall c h st,
+  srun c st (map lift h) = run c st h /\ flatten (map lift h) = h.
+Proof. intros c h st. split; [apply lift_run|apply flatten_lift]. Qed.
+Print Assumptions C08_plain_histories_embed.
+
+(* Registering AFTER the hand-down (seeded C08-5; protocol layers, interface layer or both)
+   violates the property: the reply that arrives during the hand-down reaches no callback, the
+   entry is inserted afterwards and stays, and a replayed reply then DOES invoke the callback;
+   same for a library key fetch and for the keep-alive ping's pong. *)
+Theorem C08_register_after_send_refuted :
+  let r := mkreq 1 (OApp KLastSeen) in
+  let nested := SApp KLastSeen true true no_retry [mkndel 1 TResult ShPlain] in
+  refutes_sync cfg_regafter_both KLastSeen [mkndel 1 TResult ShPlain] [] /\
+  refutes_sync cfg_regafter_proto KLastSeen [mkndel 1 TError ShPlain] [] /\
+  refutes_sync cfg_regafter_iface KGList [mkndel 1 TResult ShPlain] [] /\
+  app_cbs 1 (sevents cfg_regafter_both init [nested]) = [] /\
+  In (EvTop 1) (sevents cfg_regafter_iface init [nested]) /\
+  lookup 1 (app (sfinal cfg_regafter_both init [nested])) <> None /\
+  lookup 1 (regs (sfinal cfg_regafter_both init [nested]) LPresence) <> None /\
+  lookup 1 (app (sfinal cfg_regafter_iface init [nested])) <> None /\
+  app_cbs 1 (snd (sstep cfg_regafter_both (sfinal cfg_regafter_both init [nested])
+                        (SDeliver 1 TResult ShPlain))) = [(Success, r)] /\
+  app_cbs 1 (snd (sstep cfg_regafter_proto (sfinal cfg_regafter_proto init [nested])
+                        (SDeliver 1 TError ShPlain))) = [(Error, r)] /\
+  lib_cbs 1 (sevents cfg_regafter_proto init [SLib LKFetchCtl [mkndel 1 TError ShPlain]]) = [] /\
+  lookup 1 (regs (sfinal cfg_regafter_proto init [SLib LKFetchCtl [mkndel 1 TError ShPlain]]) LCtl)
+    <> None /\
+  lib_cbs 1 (sevents cfg_regafter_proto init [SLib LKFetchCtl [mkndel 1 TError ShPlain];
+                                              SDeliver 1 TError ShPlain])
+    = [(Error, mkreq 1 (OLib LKFetchCtl))] /\
+  iface_evs 1 (sevents cfg_regafter_proto init [SLib LKPing [mkndel 1 TResult ShPlain]]) = [] /\
+  app_cbs 1 (sevents cfg_repaired init [nested; SDeliver 1 TResult ShPlain]) = [(Success, r)] /\
+  app_cbs 1 (snd (sstep cfg_repaired (sfinal cfg_repaired init [nested])
+                        (SDeliver 1 TResult ShPlain))) = [] /\
+  lookup 1 (app (sfinal cfg_repaired init [nested])) = None.
+Proof. exact register_after_send_refuted. Qed.
+Print Assumptions C08_register_after_send_refuted.
+
+(* Why no sequential register-then-deliver history exposes that defect: on histories WITHOUT
+   nested deliveries two tables that differ only in the registration order are indistinguishable. *)
+Theorem C08_register_order_unobservable_sequentially : forall c1 c2,
+  app_route c1 = app_route c2 -> lib_route c1 = lib_route c2 ->
+  strict_reply c1 = strict_reply c2 -> strict_iface c1 = strict_iface c2 ->
+  late_delete c1 = late_delete c2 -> late_delete_iface c1 = late_delete_iface c2 ->
+  forall h st, run c1 st h = run c2 st h.
+Proof. exact register_order_unobservable_sequentially. Qed.
+Print Assumptions C08_register_order_unobservable_sequentially.
